@@ -21,6 +21,7 @@ RULE = (
     "2..4: vmap vs un-batched call and replacement/permutation of the other entries; per-entry smse loss. Non-trivial: >=2 leading "
     "axes or >=2 types (per-image) / batch >=2 (models); distinct by configuration."
 )
+RULE += " Also: slice components, get_one, patch 3, magnitudes 1e15 / 1 / 1e-5 in one block judged per entry, timestep loss for all three reductions against per-sample losses."
 ASSUMPTIONS = ["reference action / NumPy norm / block mean", "vmap vs single tolerance 1e-5 of the output scale; replacement of other entries 1e-6"]
 ANCHORS = [
     "ginjax.geometric.multi_image:MultiImage.times_group_element", "ginjax.geometric.multi_image:MultiImage.norm", "ginjax.geometric.multi_image:MultiImage.average_pool",
